@@ -65,10 +65,12 @@ func (g *Group[T]) ServeHTTP(w http.ResponseWriter, r *http.Request) {
 	// 时会自动为各个路由添加，无需在此处再次添加 Recovery 的处理。
 
 	for _, router := range g.routers {
+		path := r.URL.Path
 		if ok := router.matcher.Match(r, ctx); ok {
 			router.serveContext(w, r, ctx)
 			return
 		}
+		r.URL.Path = path
 		ctx.Reset()
 	}
 
